@@ -14,10 +14,15 @@ import (
 
 // C14 — configured delays are lower bounds and never reorder, drop, duplicate or crash.
 
-func c14filter(delay time.Duration, n, bound int, go123 bool) *explore.Scenario {
+func c14filter(delay time.Duration, n, bound int, go123 bool, slow ...time.Duration) *explore.Scenario {
 	name := fmt.Sprintf("delayfilter d=%v n=%d", delay, n)
 	if go123 {
 		name += " (go1.23 timers)"
+	}
+	var slowBy time.Duration
+	if len(slow) > 0 {
+		slowBy = slow[0]
+		name += fmt.Sprintf(" slow-nic=%v", slowBy)
 	}
 	sc := &explore.Scenario{Name: name, Bound: bound}
 	sc.Cfg.Horizon = 30 * time.Second
@@ -28,6 +33,7 @@ func c14filter(delay time.Duration, n, bound int, go123 bool) *explore.Scenario 
 	}
 	sc.Make = func() (func(), func(*zzvsched.Exec) (string, *explore.Violation)) {
 		rec := vnet.ZZNewRecNIC()
+		rec.SlowBy = slowBy
 		var sentAt []time.Duration
 		var script []string
 		pushed := 0
@@ -271,6 +277,7 @@ func init() {
 					out = append(out, c14router(md, j, 3, b))
 				}
 			}
+			out = append(out, c14filter(500*time.Microsecond, 3, 1, false, time.Millisecond), c14filter(0, 3, 1, false, 3*time.Microsecond))
 			// a downstream NIC that takes longer per chunk than the spacing of the arrivals
 			out = append(out, c14router(time.Millisecond, 0, 3, 1, 2*time.Microsecond), c14router(20*time.Millisecond, 0, 3, 1, 30*time.Millisecond))
 			out = append(out, c14twoRouters(time.Millisecond, 20*time.Millisecond, 2, 1), c14twoRouters(10*time.Millisecond, time.Millisecond, 2, 1))
